@@ -564,6 +564,7 @@ func (p *ProjectRunner) shutDownAndWait(shutdownOrder []*Process) {
 
 func (p *ProjectRunner) ShutDownProject() error {
 	verifPointR(p, "shutdown_call")
+	defer verifPointR(p, "shutdown_unlocked")
 	p.runProcMutex.Lock()
 	verifPointR(p, "shutdown_begin")
 	defer p.runProcMutex.Unlock()
@@ -591,7 +592,7 @@ func (p *ProjectRunner) ShutDownProject() error {
 		nameOrder = append(nameOrder, v.getName())
 	}
 	log.Debug().Msgf("Shutting down %d processes. Order: %q", len(shutdownOrder), nameOrder)
-	verifPointR(p, "shutdown_order", nameOrder)
+	verifPointR(p, "shutdown_order", shutdownOrder)
 	for _, proc := range shutdownOrder {
 		proc.prepareForShutDown()
 	}
